@@ -2,7 +2,8 @@
    arguments (compared bit-for-bit up to the sign of zero, NaN = NaN), and the comparison of the model's
    outcome and trace with the ones recorded from the implementation. *)
 From Coq Require Import List ZArith Bool String Floats.PrimFloat.
-From LBFGSB Require Import Base.Res Model.SF Model.FloatVec Model.Driver.
+From LBFGSB Require Model.Dcsrch.
+From LBFGSB Require Import Base.Res Model.SF Model.FloatVec Model.Driver Model.DriverDcs.
 Import ListNotations.
 Open Scope Z_scope.
 
@@ -108,3 +109,22 @@ Definition check_run (U : user) (K : kern) (c : cfg) (expected : res result) (tr
        | OutOfFuel, _ => 30
        | _, _ => 20
        end.
+
+(* ---- the line-search routine: recorded answers of the real DCSRCH against the DCSRCH model.
+   [pw] = the values the C library's pow(x, 2.0) returned inside dcstep during the run (recorded by a traced replay). *)
+Definition task_eqb (a b : Driver.task) : bool :=
+  match a, b with
+  | Driver.TFG, Driver.TFG | Driver.TConv, Driver.TConv | Driver.TWarn, Driver.TWarn | Driver.TErr, Driver.TErr => true
+  | _, _ => false
+  end.
+Definition dcs_conforms (sq : float -> float) (c : cfg)
+    (t : list ((float * list (float * float * float)) * (float * Driver.task))) : bool :=
+  forallb (fun e => let '((mx, h), (stp, tk)) := e in
+                    let r := dcs_model sq (ftol_ls c, gtol_ls c, xtol_ls c, mx) h in
+                    FloatVec.fsame (fst r) stp && task_eqb (snd r) tk) t.
+(* as [check_run], with the DCSRCH model in place of the recorded answers; 40 = the real routine answered differently *)
+Definition check_run_dcs (pw : list (float * float))
+    (t : list ((float * list (float * float * float)) * (float * Driver.task)))
+    (U : user) (search : vec -> vec -> mats -> Z -> vec) (dot : vec -> vec -> float) (c : cfg)
+    (expected : res result) (trace : list ev) : Z :=
+  if dcs_conforms (Dcsrch.sq_table pw) c t then check_run U (mkkern search (dcs_model (Dcsrch.sq_table pw)) dot) c expected trace else 40.
